@@ -30,6 +30,11 @@ CHECKS = {
     technique="TLA+ spec Carrier.tla model-checked by TLC (map-update action property); all behaviours replayed on kotel.RecordCarrier (binding R) + end-to-end propagation run",
     text="Carrier.tla models the header list with Set/Get/Keys and checks, as an action property, that Set is exactly a map update on the first-value-per-key view. TLC emits every behaviour (all initial lists incl. duplicate keys x all operation sequences to the bound); each is replayed on the real carrier comparing the whole header list after every step. The injected-then-extracted clause is run through kgo+kfake with the real kotel hooks and W3C propagator.",
     note="Alphabet 3 keys x 2 values, lists <=3, 3-4 operations; the end-to-end clause samples 12 records over one kfake broker."),
+ "C24": dict(
+    level="exploration", design="5/C24",
+    technique="TLA+ predicates (Tables.tla) evaluated by TLC over an exhaustive dump of the public tables (binding O2)",
+    text="The runner dumps kerr.ErrorForCode/TypedErrorForCode for all 65536 int16 codes, kmsg.RequestForKey/ResponseForKey/NameForKey (key, min/max version, type names, ResponseKind) for all 65536 int16 keys, and every named kversion release (32 named, Stable, Tip, VersionStrings) per key with the codec's maximum. Tables.tla states the three consistency predicates (code maps to itself on the contiguous Kafka range, 0 to nil, others to UNKNOWN_SERVER_ERROR; request/response agree on key, name, versions; no release exceeds the codec) and TLC evaluates them on every row.",
+    note="Finite data invariant, exhaustive over the int16 domains; the Kafka code range is read off the table (contiguity enforced, lower bounds guard against vacuity)."),
 }
 
 NOT_APPLICABLE = {
